@@ -891,6 +891,7 @@ theorem buildOptions_exec_matches_source (P : Par) (errSink : Val) (dev dc ds : 
   | nil => simp [buildOptions_body, Stmt.tl, h5]
   | cons x r =>
     have hp : ((r.length : Int) + 1 > 0) := by omega
+    have hp' : ¬ ((r.length : Int) + 1 = 0) := by omega
     obtain ⟨t5, hk⟩ := buildOptions_keys_loop P (exec (X P) fuel) errSink (.list o) l1 (.list samp) (.list []) fl
       (P.keys (.list (x :: r))) [] 0 none
     obtain ⟨t6, hf⟩ := buildOptions_fields_loop P (exec (X P) fuel) errSink (.list o) l1 (.list samp)
@@ -900,7 +901,7 @@ theorem buildOptions_exec_matches_source (P : Par) (errSink : Val) (dev dc ds : 
     have hx1 : ∀ σ, execS (X P) (exec (X P) fuel) buildOptions_loop1 σ = execS (X P) (exec (X P) fuel)
         (.range .blank (.loc "l6") (.loc "l4") buildOptions_loop1.rbody) σ := fun _ => rfl
     simp only [boJunk, List.append_nil, List.nil_append] at hk hf
-    simp [buildOptions_body, Stmt.tl, h5, hp, hx0, hx1, State.assign1, Env.set]
+    simp [buildOptions_body, Stmt.tl, h5, hp, hp', hx0, hx1, State.assign1, Env.set]
     rw [hk]
     cases t5 <;>
       (simp [boJunk, Env.get, Env.set, hx1] at hf ⊢
@@ -1006,8 +1007,9 @@ theorem Build_exec_matches_source (P : Par) (enc cfg : Val) (level outs errs : L
               Env.get, hL, Val.beqs, buildLogger]
           | cons o0 os =>
             have hp : ((os.length : Int) + 1 > 0) := by omega
+            have hp' : ¬ ((os.length : Int) + 1 = 0) := by omega
             simp [Build_body, retK_of_fin _ _ _ _ _ _ _ he, retK_of_fin _ _ _ _ _ _ _ hs, retK_of_fin1 _ _ _ _ _ _ ho,
-              Env.get, hL, Val.beqs, buildLogger, hp]
+              Env.get, hL, Val.beqs, buildLogger, hp, hp']
 
 /-- **Build_matches_source** -/
 theorem Build_matches_source (P : Par) (enc cfg : Val) (level outs errs : List Val) (dev dc ds : Bool)
